@@ -429,7 +429,7 @@ func (c joinCtx) decide(b *ssa.BasicBlock) int {
 			eq := -1
 			switch {
 			case IsNil(pr[1]):
-				if IsNil(v) {
+				if IsNil(v) || nilOnEdge(v, c, ph(pr[0])) {
 					eq = 1
 				} else if KnownNonNil(v) || nonNilOnEdge(v, c, ph(pr[0])) {
 					eq = 0
@@ -609,9 +609,37 @@ func nonNilOnEdge(v ssa.Value, c joinCtx, p *ssa.Phi) bool {
 		}
 		pred := e.j.Preds[e.pi]
 		for _, br := range NilBranches(v) {
+			if br.Pol < 0 {
+				continue // a test of a merged value says nothing about v alone
+			}
 			other := br.Other()
 			// block reached only through the non-nil edge?
 			if other.From.Succs[other.Succ] == pred || edgeDominatesRaw(pred.Parent(), other, pred) {
+				return true
+			}
+		}
+	}
+	return false
+}
+
+// nilOnEdge: the value the phi receives over the context's edge was tested
+// nil on the way there (the edge's source is reached only through the nil edge
+// of a test of v itself).
+func nilOnEdge(v ssa.Value, c joinCtx, p *ssa.Phi) bool {
+	if p == nil {
+		return false
+	}
+	for _, e := range c {
+		if e.j != p.Block() || e.pi >= len(e.j.Preds) {
+			continue
+		}
+		pred := e.j.Preds[e.pi]
+		for _, br := range NilBranches(v) {
+			if br.Pol < 0 {
+				continue
+			}
+			ne := br.Edge()
+			if ne.From.Succs[ne.Succ] == pred || ne.From == pred && ne.From.Succs[ne.Succ] == e.j || edgeDominatesRaw(pred.Parent(), ne, pred) {
 				return true
 			}
 		}
